@@ -156,14 +156,14 @@ def run(tier):
         case = {"main": B + "main.oal", "files": {B + k: v for k, v in files.items()}, "want": {"yaml": True}}
         seqc = []
         for k in range(3):
-            seqc.append(case)
+            seqc.append(case if k == 0 else dict(case, own_thread=True))      # the later ones each on a thread of their own
             seqc.append({"main": B + "main.oal", "files": {B + "main.oal": "let z%d = { 'w%d num };\nres /%d on get -> <z%d>;\n" % (k, k, k, k)}, "want": {"yaml": True}})
         obs = run_oalv("compile", seqc)
         if any(o.get("yaml") is None for o in obs[0::2]):
             raise common.ToolError("directed determinism program %s is not compiled to a document: %s" % (name, json.dumps(obs[0])[:300]))
         ys = set(o.get("yaml") for o in obs[0::2])
         if len(ys) > 1:
-            chk.violation("C06|bytes-differ|in-process", "%s: repeated compilation in one process gives %d different YAML texts" % (name, len(ys)), {"files": files})
+            chk.violation("C06|bytes-differ|in-process", "%s: repeated compilation in one process (on different threads) gives %d different YAML texts" % (name, len(ys)), {"files": files})
         else:
             chk.cov["traces_validated_against_impl"] += 1
     chk.cov["evaluations"] = len(progs_) * nproc + len(PROGRAMS) * 3
